@@ -29,6 +29,15 @@ open Bisquitt Gw
 @[simp] theorem clearBufferUnlessAsleep_st (g : Gw) : g.clearBufferUnlessAsleep.st = g.st := by
   unfold clearBufferUnlessAsleep; split <;> rfl
 @[simp] theorem startSleepPinger_st (g : Gw) (d : UInt16) : (g.startSleepPinger d).st = g.st := rfl
+@[simp] theorem armSleepPinger_st (g : Gw) (d : UInt16) : (g.armSleepPinger d).st = g.st := by
+  unfold armSleepPinger; split <;> rfl
+@[simp] theorem pingBroker_st (g : Gw) : g.pingBroker.st = g.st := rfl
+@[simp] theorem keepBrokerAlive_st (g : Gw) : g.keepBrokerAlive.st = g.st := by
+  unfold keepBrokerAlive; split
+  · rfl
+  · split
+    · split <;> rfl
+    · rfl
 @[simp] theorem newTopicId_st (g : Gw) : g.newTopicId.2.st = g.st := by
   unfold newTopicId
   split
